@@ -146,7 +146,9 @@ def dec(d, odfdo):
     raise TypeError(t)
 
 
-STRS = ["x", "Name_1", "é中 b", "q\"<&'>", "true", "false", " lead", "0", ""]
+# strings: plain, non-ASCII, XML-special, the attribute layer's exception set, and a lattice of leading / trailing / only
+# white space and line feeds (hand-written properties normalise some of these: harness/c12_readback_golden.json)
+STRS = ["x", "Name_1", "é中 b", "q\"<&'>", "true", "false", " lead", "0", "", " ", "\n", "x\n", "x\n\n", "\nx", " x ", "a\nb"]
 DT = datetime(2024, 2, 29, 13, 14, 15)
 TD = timedelta(hours=1, minutes=2, seconds=3)
 
@@ -315,6 +317,19 @@ def load_guard_reference():
     return {(c, a): g for c, a, g in re.findall(r'\("([^"]+)", \("([^"]+)", (\(GGe -?\d+\)|G\w+)\)\)', txt)}
 
 
+GOLDEN_FILE = Path(__file__).resolve().parent / "c12_readback_golden.json"
+RECORD = {}
+
+
+def load_golden():
+    """documented normalisations of hand-written properties: {"Class.arg": {repr(value): repr(read-back)}} as observed on the
+    reference tree (/repo fdb0cab).  Where there is no entry the property must give the value back unchanged."""
+    try:
+        return json.loads(GOLDEN_FILE.read_text())
+    except FileNotFoundError:
+        return {}
+
+
 def is_falsy_value(v):
     if v is None:
         return False
@@ -329,6 +344,7 @@ class Ctx:
     def __init__(self, odfdo, info):
         self.reference = load_reference()
         self.guard_reference = load_guard_reference()
+        self.golden = load_golden()
         self.odfdo = odfdo
         self.info = info
         from odfdo.element import _class_registry, Element, ODF_NAMESPACES
@@ -600,6 +616,12 @@ def run_ctor(ctx, d):
                 except Exception as ex:
                     r = ("exc", type(ex).__name__)
                 if not expected_custom(conv, r):
+                    gk = "%s.%s" % (d["cls"], a)
+                    if len(d["focus"]) == 1 and ctx.golden.get(gk, {}).get(repr(conv)) == repr(r):
+                        continue            # the documented normalisation of this property
+                    if os.environ.get("VERIF_C12_RECORD") and len(d["focus"]) == 1 and isinstance(conv, str):
+                        RECORD.setdefault(gk, {})[repr(conv)] = repr(r)
+                        continue
                     fails.append(("ctor-arg-custom/%s.%s" % (d["cls"], a),
                                   "%s(%s=%r): property %s of the %s object reads %r" % (d["cls"], a, v, prop, who, r)))
                     break
@@ -1281,6 +1303,8 @@ def run(tier, seed, replay=None):
             st[0] = st[0] or changed_
         if len(samples) < 3 and d["kind"] == "ctor" and d["focus"]:
             samples.append(d)
+    if os.environ.get("VERIF_C12_RECORD") and RECORD:
+        GOLDEN_FILE.write_text(json.dumps(RECORD, indent=1, sort_keys=True, ensure_ascii=False) + "\n")
     if not replay:
         for (rc_, ra_), (ok_, i_, note_) in sorted(reached.items()):
             if not ok_:
